@@ -191,6 +191,49 @@ pub fn run_c17(args: &Args) -> Report {
             }
         }
     }
+    // the same command text in sibling files / twice in one file: every execution is a real execution
+    if args.shard == 0 {
+        for depth in 0..3 {
+            let sdir = depths[depth];
+            let pre = if sdir.is_empty() { String::new() } else { format!("{sdir}/") };
+            let mut dirs: Vec<String> = vec![];
+            let mut acc = String::new();
+            for part in sdir.split('/').filter(|x| !x.is_empty()) {
+                acc = if acc.is_empty() { part.to_string() } else { format!("{acc}/{part}") };
+                dirs.push(acc.clone());
+            }
+            let fa = format!("{pre}a.txt.txtpp");
+            let fb = format!("{pre}b.txt.txtpp");
+            let fc = format!("{pre}c.txt.txtpp");
+            let cmd = "printf %s \"$TXTPP_FILE\"";
+            let files = vec![
+                (fa.clone(), format!("// TXTPP#run {cmd}\n~\n").into_bytes()),
+                (fb.clone(), format!("TXTPP#after a.txt\n// TXTPP#run {cmd}\n~\n").into_bytes()),
+                (fc.clone(), b"// TXTPP#temp tc_0.tmp\n// one\n# TXTPP#run cat tc_0.tmp\n~\n// TXTPP#temp tc_0.tmp\n// two\n# TXTPP#run cat tc_0.tmp\n~\n".to_vec()),
+            ];
+            let p = Project {
+                files,
+                dirs,
+                cmds: vec![(cmd.to_string(), vec![Act { kind: "file", arg: String::new() }]), ("cat tc_0.tmp".to_string(), vec![Act { kind: "cat", arg: "tc_0.tmp".into() }])],
+                sources: vec![fa.clone(), fb.clone(), fc.clone()],
+                sig: vec![],
+                expect_error: false,
+            };
+            for threads in [1usize, 4] {
+                materialize(&p, &runner.dir);
+                let mut cfg = RunCfg::build_all();
+                cfg.threads = threads;
+                let idx = runner.run_here(&cfg, &p.cmds, vec![format!("same-command|d{depth}|j{threads}")], &format!("same command text in sibling files, depth {depth}"));
+                let c = &runner.cases[idx];
+                let get = |n: &str| c.imp.after.files.get(&output_name(n)).map(|b| String::from_utf8_lossy(b).to_string()).unwrap_or_default();
+                let (oa, ob, oc) = (get(&fa), get(&fb), get(&fc));
+                if c.imp.verdict != "ok" || !oa.starts_with(&fa) || !ob.starts_with(&fb) || oc != "one~\ntwo~\n" {
+                    let what = format!("C17: each run command must really be executed with TXTPP_FILE of its own source: a -> {:?}, b -> {:?}, c (cat of a temp file rewritten in between) -> {:?}, verdict {}", oa, ob, oc, c.imp.verdict);
+                    rep.violation("oracle", &what, &replay_body(&c.before, &c.cfg, &c.cmds, &format!("# {what}\n")));
+                }
+            }
+        }
+    }
     // the CLI guard
     if bin.exists() && args.shard == 0 {
         let p = Project { files: vec![("g.txt.txtpp".into(), b"x\n".to_vec())], dirs: vec![], cmds: vec![], sources: vec!["g.txt.txtpp".into()], sig: vec![], expect_error: false };
